@@ -451,6 +451,51 @@ func c03Snapshots(w *World, r *Report, a *FsmA, id, slug string) {
 			})
 		}
 	}
+	// the SST saver sends the last (partly filled) table: from the loop's exit every success return
+	// crosses a length-delimited write (the sstable writer buffers a block before anything reaches
+	// the memory file, so "nothing in the file" does not mean "nothing left")
+	for _, fn := range saves {
+		var wl []ssa.Instruction
+		eachInstr(fn, func(in ssa.Instruction) {
+			if c := plainCall(in); c != nil && StaticCallee(c) != nil && StaticCallee(c).Name() == "writeLenDelimited" {
+				wl = append(wl, in)
+			}
+		})
+		if len(wl) == 0 {
+			continue
+		}
+		var outside []ssa.Instruction
+		for _, x := range wl {
+			if !inCycle(x.Block()) {
+				outside = append(outside, x)
+			}
+		}
+		if len(outside) == 0 {
+			ob.Violate("save-drops-tail@"+FnName(fn), fn.Pos(), "the SST saver writes tables only inside its loop: what was collected since the last full table is never sent")
+			continue
+		}
+		isTail := func(x ssa.Instruction) bool { return containsInstr(outside, x) }
+		for _, b := range fn.Blocks {
+			if !inCycle(b) {
+				continue
+			}
+			for _, sb := range b.Succs {
+				if inCycle(sb) {
+					continue
+				}
+				// an exit of the loop
+				if p := (&Walk{Barrier: isTail, Target: isSuccessReturn}).Find(Loc{sb, 0}); p != nil {
+					if ret, ok := p.Hit.(*ssa.Return); ok && !isErrorReturn(ret) && !strings.Contains(Expr(retVal(ret, 0)), "ErrSnapshotStopped") {
+						ob.Violate("save-drops-tail@"+FnName(fn), instrPos(p.Hit), "the SST saver can finish successfully without sending the table it was still filling: the highest keys - always including the two index keys - are not transferred", w.PathString(p)...)
+					}
+				}
+			}
+		}
+	}
+	// a deferred clean-up of a saver / recoverer / prepare does not overwrite the result
+	for _, fn := range append(append([]*ssa.Function{}, saves...), prepares...) {
+		c03DeferOverwrites(w, ob, fn)
+	}
 	// prepare of the checkpoint format: Flush before Checkpoint on the same DB
 	for _, fn := range prepares {
 		cps := callsIn(fn, false, "(*"+pebblePath+".DB).Checkpoint")
@@ -635,4 +680,61 @@ func c01FreshDecode(w *World, r *Report, a *FsmA, id, slug string) {
 		})
 	}
 	ob.NeedFloor(2)
+}
+
+// c03DeferOverwrites: a deferred closure stores into a named result of fn unconditionally (not
+// behind a test of that result): whatever the body returned - an error, the stop signal - is replaced.
+func c03DeferOverwrites(w *World, ob *Ob, fn *ssa.Function) {
+	eachInstr(fn, func(in ssa.Instruction) {
+		d, ok := in.(*ssa.Defer)
+		if !ok {
+			return
+		}
+		mc, ok := d.Call.Value.(*ssa.MakeClosure)
+		if !ok {
+			return
+		}
+		body, ok := mc.Fn.(*ssa.Function)
+		if !ok {
+			return
+		}
+		for i, fv := range body.FreeVars {
+			al, ok := mc.Bindings[i].(*ssa.Alloc)
+			if !ok || !isErrorType(deref(al.Type())) || !strings.HasPrefix(al.Comment, "") {
+				continue
+			}
+			// is the captured variable a named result? (it is loaded by the returns of fn)
+			named := false
+			eachInstr(fn, func(x ssa.Instruction) {
+				if ret, ok := x.(*ssa.Return); ok {
+					for _, rv := range ret.Results {
+						if u, ok := rv.(*ssa.UnOp); ok && u.X == ssa.Value(al) {
+							named = true
+						}
+					}
+				}
+			})
+			if !named {
+				continue
+			}
+			isTest := func(b *ssa.BasicBlock, k int) bool {
+				iff, ok := b.Instrs[len(b.Instrs)-1].(*ssa.If)
+				if !ok {
+					return false
+				}
+				return strings.Contains(Expr(iff.Cond), "^") && strings.Contains(Expr(iff.Cond), "nil")
+			}
+			eachInstr(body, func(x ssa.Instruction) {
+				st, ok := x.(*ssa.Store)
+				if !ok || st.Addr != ssa.Value(fv) {
+					return
+				}
+				// reachable from the closure's entry without crossing a test of the result?
+				wk := &Walk{Target: func(y ssa.Instruction) bool { return y == x }, EdgeOK: func(b *ssa.BasicBlock, k int) bool { return !isTest(b, k) }}
+				if wk.Find(entry(body)) != nil {
+					ob.Violate("deferred-result-overwrite@"+FnName(fn), x.Pos(), FnName(fn)+" defers a closure that assigns its result unconditionally: an error or the stop signal returned by the body is replaced (an interrupted save is reported as complete)")
+				}
+			})
+		}
+	})
 }
